@@ -948,6 +948,9 @@ void DFAContentModel::buildDFA(ContentSpecNode* const curNode)
     (
         curArraySize * sizeof(bool)
     ); //new bool[curArraySize];
+    // entries are set when their state is processed, but the expansion below
+    // copies all of them: give the not yet processed ones a defined value
+    memset(fFinalStateFlags, 0, curArraySize * sizeof(bool));
     fTransTable = (unsigned int**) fMemoryManager->allocate
     (
         curArraySize * sizeof(unsigned int*)
@@ -1242,6 +1245,7 @@ void DFAContentModel::buildDFA(ContentSpecNode* const curNode)
                     (
                         newSize * sizeof(bool)
                     ); //new bool[newSize];
+                    memset(newFinalFlags, 0, newSize * sizeof(bool));
                     unsigned int** newTransTable = (unsigned int**)
                         fMemoryManager->allocate
                         (
